@@ -3,6 +3,9 @@ import RedisVerif.Model.SkipList
 import RedisVerif.Model.DataStructs
 import RedisVerif.Model.ExecutorCode
 import RedisVerif.Model.RedisX
+import RedisVerif.Model.ExecutorColl
+import RedisVerif.Model.ExecutorScan
+import RedisVerif.Model.ExecutorX
 
 /-
   C01 / C17 sub-driver, extended with the DATA-STRUCTURE lines (`DS …`): the transcription models of
@@ -25,6 +28,17 @@ import RedisVerif.Model.RedisX
     DS ZLEVEL <rnghex>              → "<level> <newrnghex>"     random_level from a given state
     DS LNEW / LPUSH L|R <v> / LPOP L|R / LLEN / LRANGE a b / LGET i / LSET i <v> / LTRIM a b / LALL
     DS SNEW <bytes> / SAPPEND <bytes> / SRESIZE <n> / SREPR     → "I <len> <23 bytes>" | "H <bytes>"
+
+  The EXECUTOR lines (`Model.Executor` / `Model.ExecutorColl`: the CommandExecutor as it is, two maps +
+  clock, its own state threaded through the whole sequence — no adoption after a modelled command):
+    XCFG <epoch_ms> <now>           → "xcfg"       fresh executor, `simulation_start_epoch_ms`, `set_time(now)`
+    XCLK <now> <set_time|evict_expired_direct|update_time_readonly>   → "xclk"
+    <now> XC <OP> <args…> ;; …      → "<reply> | <PHYSICAL dump of `data`: n {key ttl|-1|dead value}> | nexp=<expirations.len()>"
+    <now> XADOPT ;; <physical dump> → "xadopt"     after a command the transcription does not cover
+    <now> XX SETBIT … | GETBIT … | BATCHSET … | BATCHGET … | KEYS <pattern> ;; …   → like XC (`Model.ExecutorX.execXC`)
+    <now> XS OBJENC|OBJREF|OBJIDLE|OBJFREQ|DEBUGOBJ <key> ;; …   → "<reply> | <physical dump> | nexp=…"  (`execStub`)
+    <now> XS CONST <Variant> ;; …                                  → "? | <physical dump> | nexp=…"
+    <now> XSCAN <cursor> <patternhex | -> <count | ->   → "<next cursor> <n> <keyhex>*" | "crash"   (`Model.ExecutorScan.cScan`)
 -/
 namespace RedisVerif.Driver.C01Data
 open RedisVerif RedisVerif.Driver RedisVerif.Redis RedisVerif.Driver.C01
@@ -35,8 +49,9 @@ structure DState where
   zs : ZS
   lst : RList
   sds : Sds
+  code : Executor.CState
 
-def DState.init : DState := ⟨Redis.init, ZS.new, [], Sds.new []⟩
+def DState.init : DState := ⟨Redis.init, ZS.new, [], Sds.new [], Executor.CState.new 0⟩
 
 def showPairs (l : List (BS × Score)) : String :=
   " ".intercalate (("*" ++ toString l.length) :: l.map (fun p => s!"{hexOfBytes p.1} {showScoreTok p.2}"))
@@ -189,8 +204,115 @@ def xLine (now : Nat) : P (Nat × RedisX.XCmd × State) := do
   let s ← dump now
   pure (now, c, s)
 
+/-- the physical content of the executor model: every key of `data`, live or not -/
+def showPhys (c : Executor.CState) : String :=
+  " ".intercalate (toString c.data.length :: c.data.map (fun p =>
+    let ttl :=
+      if Executor.isExpired c p.1 then "dead"
+      else match NMap.get c.exp p.1 with
+        | none => "-1"
+        | some d => toString (d - c.now)
+    s!"{showKey p.1} {ttl} {showValue p.2}"))
+
+/-- `<n> {<key> <pttl | -1 | dead> <value>}` → (data, expirations); a dead key gets the deadline `now` -/
+def physDump (now : Nat) : P (NMap Value × NMap Nat) := do
+  let n ← nat
+  let l ← repeatP n (do
+    let k ← strKey
+    let t ← tok
+    let v ← value
+    let dl : Option Nat ←
+      (if t == "dead" then pure (some now)
+       else match t.toInt? with
+         | some i => pure (if i < 0 then none else some (now + i.toNat))
+         | none => failure)
+    pure (k, v, dl))
+  pure (NMap.ofList (l.map (fun x => (x.1, x.2.1))),
+        NMap.ofList (l.filterMap (fun x => x.2.2.map (fun d => (x.1, d)))))
+
+def xcLine : P Cmd := do
+  let c ← cmd
+  expect ";;"
+  pure c
+
 def stepLine (st : DState) (l : String) : DState × String :=
   match tokens l with
+  | ["XCFG", e, n] =>
+    match e.toNat?, n.toNat? with
+    | some e, some n => ({ st with code := Executor.setTime (Executor.CState.new e) n }, "xcfg")
+    | _, _ => (st, "bad-op")
+  | ["XCLK", n, kind] =>
+    match n.toNat? with
+    | some n =>
+      if kind == "update_time_readonly" then ({ st with code := Executor.updateTimeReadonly st.code n }, "xclk")
+      else ({ st with code := Executor.setTime st.code n }, "xclk")
+    | none => (st, "bad-op")
+  | _ :: "XC" :: rest =>
+    match xcLine.run rest with
+    | some (c, _) =>
+      match Executor.execC st.code c with
+      | some (c', r) =>
+        ({ st with code := c' }, s!"{showReply (canonReply c r)} | {showPhys c'} | nexp={c'.exp.length}")
+      | none => (st, "crash")
+    | none => (st, "bad-op")
+  | _ :: "XX" :: rest =>
+    let p : P RedisX.XCmd := do
+      let t ← tok
+      let c ← (match t with
+        | "SETBIT" => do let k ← strKey; let o ← nat; let b ← nat; pure (RedisX.XCmd.setbit k o b)
+        | "GETBIT" => do let k ← strKey; let o ← nat; pure (RedisX.XCmd.getbit k o)
+        | "BATCHSET" => do let kvs ← kvList; pure (RedisX.XCmd.batchset kvs)
+        | "BATCHGET" => do let ks ← keyList; pure (RedisX.XCmd.batchget ks)
+        | "KEYS" => do let p ← bytesTok; pure (RedisX.XCmd.keys p)
+        | _ => failure)
+      expect ";;"
+      pure c
+    match p.run rest with
+    | some (c, _) =>
+      let r := Executor.execXC st.code c
+      ({ st with code := r.1 }, s!"{showReply r.2} | {showPhys r.1} | nexp={r.1.exp.length}")
+    | none => (st, "bad-op")
+  | _ :: "XS" :: rest =>
+    let p : P Executor.StubCmd := do
+      let t ← tok
+      let c ← (match t with
+        | "OBJENC" => do let k ← strKey; pure (Executor.StubCmd.objectEncoding k)
+        | "OBJREF" => do let k ← strKey; pure (Executor.StubCmd.objectRefCount k)
+        | "OBJIDLE" => do let k ← strKey; pure (Executor.StubCmd.objectIdleTime k)
+        | "OBJFREQ" => do let k ← strKey; pure (Executor.StubCmd.objectFreq k)
+        | "DEBUGOBJ" => do let k ← strKey; pure (Executor.StubCmd.debugObject k)
+        | "CONST" => do let n ← tok; pure (Executor.StubCmd.const n)
+        | _ => failure)
+      expect ";;"
+      pure c
+    match p.run rest with
+    | some (c, _) =>
+      let r := Executor.execStub st.code c
+      let shown := match r.2 with
+        | .bulk b => "$" ++ hexOfBytes b
+        | .int i => ":" ++ toString i
+        | .noSuchKey => "-nosuchkey"
+        | .unspecified => "?"
+      ({ st with code := r.1 }, s!"{shown} | {showPhys r.1} | nexp={r.1.exp.length}")
+    | none => (st, "bad-op")
+  | [_, "XSCAN", cur, pat, cnt] =>
+    let patO : Option (Option (List Nat)) :=
+      if pat == "-" then some none
+      else match pat.toList with
+        | 'x' :: cs => (parseHexBytes cs).map some
+        | _ => none
+    let cntO : Option (Option Nat) := if cnt == "-" then some none else cnt.toNat?.map some
+    match cur.toNat?, patO, cntO with
+    | some cur, some pat, some cnt =>
+      match Executor.cScan st.code cur pat cnt with
+      | none => (st, "crash")
+      | some (_, next, keys) =>
+        (st, " ".intercalate (toString next :: toString keys.length :: keys.map showKey))
+    | _, _, _ => (st, "bad-op")
+  | nowTok :: "XADOPT" :: ";;" :: rest =>
+    match (nowTok.toNat?).bind (fun now => (physDump now).run rest) with
+    | some ((d, e), []) => ({ st with code := { st.code with data := d, exp := e } }, "xadopt")
+    | _ => (st, "bad-op")
   | "DS" :: rest =>
     match (dsLine st).run rest with
     | some (r, []) => r
